@@ -501,7 +501,7 @@ func TestAllGraphs(t *testing.T) {
 func TestRandomGraphs(t *testing.T) {
 	rapid.Check(t, func(t *rapid.T) {
 		k := rapid.IntRange(2, 6).Draw(t, "k")
-		names := append([]string{""}, rapid.Permutation([]string{"甲", "乙", "丙", "丁", "戊", "库-子-叶", "库-旁"}).Draw(t, "names")[:k]...)
+		names := append([]string{""}, rapid.Permutation([]string{"甲", "乙", "丙", "丁", "戊", "库-子-叶", "库-旁", "主模块"}).Draw(t, "names")[:k]...)
 		c := &graphCase{Names: names, Edges: make([][]int, k+1), Select: make([][]string, k+1)}
 		cyclicWanted := rapid.IntRange(0, 3).Draw(t, "cyc") == 0
 		for i := 0; i <= k; i++ {
